@@ -406,6 +406,30 @@ impl Model {
                     expect_err(out, ErrKind::Io { not_found: true }, "remove_hash of absent content")
                 }
             }
+            Op::RemoveHashMulti { addr, .. } => {
+                // the strongest hash is the address; the weaker one is noise
+                let a = Self::addr_of(ctx, *addr);
+                if self.content.contains_key(&a) {
+                    expect_unit(out, "remove_hash (two-hash integrity) of present content")?;
+                    self.content.remove(&a);
+                    Ok(())
+                } else {
+                    expect_err(out, ErrKind::Io { not_found: true }, "remove_hash (two-hash integrity) of absent content")
+                }
+            }
+            Op::SwitchCache => {
+                if let Out::Bool(true) = out {
+                    // the path leads to a fresh, empty directory now
+                    self.index.clear();
+                    self.content.clear();
+                    self.index_dir = false;
+                    self.list_unjudged = false;
+                    self.tmp_elsewhere = false;
+                    self.unjudged_keys.clear();
+                    self.maybe_content.clear();
+                }
+                Ok(())
+            }
             Op::RemoveOpts { key, fully: true } => {
                 let k = ctx.key(*key).to_string();
                 let ks = self.index.get(&k).cloned().unwrap_or_default();
@@ -606,7 +630,7 @@ impl Model {
     ) -> (Option<String>, Option<usize>, bool, bool, bool) {
         let di = crate::exec::declared_integrity_ex(integ, algo, data, other).map(|s| blob::sri_canon(&s).unwrap());
         let ds = declared_size(declare, data.len());
-        let ok_int = matches!(integ, IntegDecl::None | IntegDecl::Correct | IntegDecl::MultiWithCorrect | IntegDecl::MultiTwoAlgos | IntegDecl::MultiWeakerOfOther)
+        let ok_int = matches!(integ, IntegDecl::None | IntegDecl::Correct | IntegDecl::MultiWithCorrect | IntegDecl::MultiTwoAlgos | IntegDecl::MultiWeakerOfOther | IntegDecl::MultiStrongerOfOther)
             || (integ == IntegDecl::DigestOfOtherBlob && other == data);
         let undecided_int = matches!(integ, IntegDecl::OtherAlgoCorrect);
         let ok_size = ds.map(|n| n == data.len()).unwrap_or(true);
